@@ -34,6 +34,8 @@ pub fn qcow2_alloc_dev_sync<T: Qcow2IoOps>(
     fn read_header(path: &Path, bytes: usize) -> Qcow2Result<Qcow2IoBuf<u8>> {
         use std::io::Read;
         let mut buf = Qcow2IoBuf::<u8>::new(bytes);
+        // the file may be shorter than this buffer
+        buf.zero_buf();
         let mut file = std::fs::File::open(path).unwrap();
         let _ = file.read(&mut buf).unwrap();
         Ok(buf)
@@ -49,10 +51,7 @@ pub fn qcow2_alloc_dev_sync<T: Qcow2IoOps>(
     };
     let back_path = header.backing_filename().map(|s| PathBuf::from(s.clone()));
 
-    Ok((
-        Qcow2Dev::new(path, header, params, io).expect("new dev failed"),
-        back_path,
-    ))
+    Ok((Qcow2Dev::new(path, header, params, io)?, back_path))
 }
 
 /// Allocate one qcow2 device and qcow2 header needs to be parsed
@@ -64,6 +63,8 @@ pub async fn qcow2_alloc_dev<T: Qcow2IoOps>(
 ) -> Qcow2Result<(Qcow2Dev<T>, Option<PathBuf>)> {
     async fn read_header<T: Qcow2IoOps>(io: &T, bytes: usize) -> Qcow2Result<Qcow2IoBuf<u8>> {
         let mut buf = Qcow2IoBuf::<u8>::new(bytes);
+        // the file may be shorter than this buffer
+        buf.zero_buf();
         let _ = io.read_to(0, &mut buf).await?;
         Ok(buf)
     }
@@ -77,10 +78,7 @@ pub async fn qcow2_alloc_dev<T: Qcow2IoOps>(
     };
     let back_path = header.backing_filename().map(|s| PathBuf::from(s.clone()));
 
-    Ok((
-        Qcow2Dev::new(path, header, params, io).expect("new dev failed"),
-        back_path,
-    ))
+    Ok((Qcow2Dev::new(path, header, params, io)?, back_path))
 }
 
 /// Build one async helper which can setup one qcow2 device
